@@ -10,6 +10,8 @@ from __future__ import annotations
 
 import json
 
+import math
+
 import numpy as np
 import pandas as pd
 
@@ -55,8 +57,19 @@ def gen_case(rng, nmax):
     elif shape == "noise":
         X = [[float(rng.randint(-2, 2)) for _ in range(p)] for _ in range(n)]
     M = rng.choice([max(m, 2), max(m, 2) + 1, 4, 100])
+    scale = rng.choice([0.0, 0.0, 0.05, 0.5, 2.0, None])
+    if det == "mvcapa" and rng.random() < 0.25:
+        # a weak dense anomaly: every column is shifted a little, so that the block is an anomaly by the dense penalty
+        # although no single column's saving reaches the per-column (sparse) penalty
+        shape, p, n, M = "weakdense", rng.choice([6, 8, 10]), rng.randint(12, 30), 100
+        scale = rng.choice([0.5, 1.0, 2.0])
+        L = rng.randint(max(m, 2), 6)
+        t = rng.randint(0, n - L)
+        delta = math.sqrt(rng.choice([0.6, 0.8, 0.95]) * 2 * scale * math.log(p) / L)
+        sg = [rng.choice([1, 1, -1]) for _ in range(p)]
+        X = [[delta * sg[j] if t <= i < t + L else 0.0 for j in range(p)] for i in range(n)]
     return {"det": det, "n": n, "p": p, "m": m, "M": max(M, max(m, 2)), "X": X, "shape": shape,
-            "scale": rng.choice([0.0, 0.0, 0.05, 0.5, 2.0, None]), "mx": rng.choice([2 * m, 2 * m + 1, 200]),
+            "scale": scale, "mx": rng.choice([2 * m, 2 * m + 1, 200]),
             "g": rng.choice([1.1, 1.5, 2.0]), "mdi": rng.randint(1, max(1, m // 2)),
             "cost": rng.choice(["default", "default", "l2", "gauss"]), "ignore": rng.random() < 0.3}
 
